@@ -38,11 +38,21 @@ class Executor(Evaluator):
 
     # ------------------------------------------------------------ obligations
     def oblige(self, st, goal, name, kind, extra_hyps=(), line=None):
-        if z3.is_true(z3.simplify(goal)):
-            # still counted: trivially discharged obligations are obligations
-            pass
+        if z3.is_and(goal) and goal.num_args() > 1 and kind != 'canary':
+            # one obligation per top-level conjunct: smaller queries, and the failing clause gets named
+            for i, g in enumerate(goal.children()):
+                self.oblige(st, g, '%s.c%d' % (name, i + 1), kind, extra_hyps, line)
+            return
         self.obls.append(Obligation(name, list(st.pc) + list(extra_hyps), goal, kind, self.frames[0].qualname if self.frames else '?',
                                     line, apps=list(st.apps) + list(self.spec_apps)))
+
+    def entry_heap_closure(self):
+        h = getattr(self, '_closure_heap', None)
+        if h is None:
+            return []
+        if getattr(self, '_closure_memo', None) is None or self._closure_memo[0] != len(h.sorts):
+            self._closure_memo = (len(h.sorts), h.closure_facts())
+        return self._closure_memo[1]
 
     def spec_cx(self, st, env=None):
         return SpecCtx(env if env is not None else st.locals, st.heap, st.entry_locals, st.entry_heap, st, self.frame if self.frames else None)
@@ -485,9 +495,13 @@ class Executor(Evaluator):
                 raise Unsupported('loop writes global %s which its modifies clause does not name' % (key,))
 
 
-    def check_frame_against(self, modifies_l, h0, env0, st, label, keeps_epoch=False):
+    def check_frame_against(self, modifies_l, h0, env0, st, label, keeps_epoch=False, has_effects=False):
         """obligations: every heap location not named in modifies_l has its h0 value in st.heap"""
         allowed = {}      # key -> list of allowed refs, or None for 'anything'
+        if has_effects:
+            for g in ('trace', 'shown', 'ui', 'ext'):
+                for n in trace.GROUPS[g]:
+                    allowed[('g', n)] = None      # checked exactly by the effect-refinement obligations
         cx = SpecCtx(env0, h0, env0, h0, st, self.frame)
         for m in modifies_l:
             m = m.strip()
@@ -498,9 +512,15 @@ class Executor(Evaluator):
                     allowed[('g', g)] = None
                 continue
             e = ast.parse(m, mode='eval').body
+            guard = None
+            if isinstance(e, ast.Call) and isinstance(e.func, ast.Name) and e.func.id == 'when':
+                guard = self.S.eval_bool(e.args[0], cx)
+                e = e.args[1]
+            def _g(term, guard=guard):
+                return term if guard is None else z3.If(guard, term, z3.IntVal(0))
             if isinstance(e, ast.Call) and isinstance(e.func, ast.Name):
                 kind = e.func.id
-                if kind == 'global':
+                if kind == 'cell':
                     allowed[('g', ast.unparse(e.args[0]))] = None
                     continue
                 if kind == 'field':
@@ -520,15 +540,15 @@ class Executor(Evaluator):
                     raise Unsupported('modifies target ' + m)
                 for k in keys:
                     if allowed.get(k, []) is not None:
-                        allowed.setdefault(k, []).append(target.term)
+                        allowed.setdefault(k, []).append(_g(target.term))
             elif isinstance(e, ast.Attribute):
                 obj = self.S.eval(e.value, cx)
                 for gk, (what, classes) in self.attr_candidates(obj, e.attr, []).items():
                     if gk[0] == 'field':
                         k = ('f', what[0])
                         if allowed.get(k, []) is not None:
-                            allowed.setdefault(k, []).append(obj.term)
-                        allowed.setdefault(('present', what[0]), []).append(obj.term)
+                            allowed.setdefault(k, []).append(_g(obj.term))
+                        allowed.setdefault(('present', what[0]), []).append(_g(obj.term))
             else:
                 raise Unsupported('modifies target ' + m)
         for key in st.heap.keys():
@@ -685,6 +705,10 @@ class Executor(Evaluator):
         recv = fv.py.recv
         if isinstance(obj, tuple) and obj[0] == 'method':
             return bm.call_method(self, recv, obj[1], args, kwargs, st)
+        if isinstance(obj, tuple) and obj[0] == 'noop':
+            return [(st, mk_none())]
+        if getattr(fv.py, 'nodispatch', False) and isinstance(obj, types.FunctionType):
+            return self.call_repo_function(obj, recv, args, kwargs, st, nodispatch=True)
         if isinstance(obj, tuple) and obj[0] == 'lambda':
             raise Unsupported('call of lambda value')
         if isinstance(obj, (contracts.SpecFn, contracts.SpecPred)):
@@ -764,6 +788,20 @@ class Executor(Evaluator):
             if c is None:
                 raise Unsupported('call to %s which has no contract' % repo.qualname_of(target))
             bound = self.bind_args(target, recv, args, kwargs)
+            # an Optional argument for a non-Optional parameter: the None case is outside the callee's contract
+            try:
+                pt = self.W.param_types(target, c)
+            except Unsupported:
+                pt = {}
+            dead = False
+            for pn, pv in list(bound.items()):
+                if isinstance(pv.ty, TOpt) and pn in pt and not isinstance(pt[pn], (TOpt, TAny)):
+                    s, bound[pn] = self.unwrap_opt(s, pv)
+                    if s is None:
+                        dead = True
+                        break
+            if dead:
+                continue
             if c.kind == 'inline':
                 out += self.inline_call(target, c, bound, s)
             else:
@@ -886,11 +924,7 @@ class Executor(Evaluator):
             result = fresh(rty, 'res_' + short)
         post.pc += self.W.type_facts(result, post.heap)
         env2 = dict(env); env2['result'] = result
-        cx2 = SpecCtx(env2, post.heap, env, pre_heap, post, cfr)
-        for name, text in c.ensures_l:
-            b = self.S.eval_bool(text, cx2)
-            post.pc.append(b)
-        post.pc += cx2.facts
+        # effects first (the contract's ghost code for the traces), then the declarative postconditions
         posts = [post]
         if c.effects:
             saved = post.locals
@@ -903,6 +937,11 @@ class Executor(Evaluator):
             for p in posts:
                 p.locals = dict(saved)
         for p in posts:
+            cx2 = SpecCtx(env2, p.heap, env, pre_heap, p, cfr)
+            for name, text in c.ensures_l:
+                b = self.S.eval_bool(text, cx2)
+                p.pc.append(b)
+            p.pc += cx2.facts
             out.append((p, result))
         return out
 
@@ -916,7 +955,7 @@ class Executor(Evaluator):
         """havoc what the contract's modifies clause names (see DESIGN 2.4)"""
         if not c.modifies_l:
             return
-        cx = SpecCtx(env, pre_heap, env, pre_heap, st, None)
+        cx = SpecCtx(env, pre_heap, env, pre_heap, st, Frame(c.fn if c.kind == 'lemma' else repo.resolve(c.qualname), c) if c.kind != 'lemma' else None)
         bumped = False
         for m in c.modifies_l:
             bm.havoc_target(self, m, cx, st, pre_heap)
